@@ -1,0 +1,70 @@
+//go:build verif
+
+package tools
+
+import (
+	"fmt"
+	"os"
+	"strconv"
+	"strings"
+	"sync"
+	"syscall"
+)
+
+// Verification hooks, compiled only with `-tags verif`.
+//
+// VerifCrash(point): counts occurrences of a named storage-mutating step.
+//   VERIF_CRASH_LOG=<file>   append "<point>" for every reached occurrence
+//   VERIF_CRASH=<point>:<n>  SIGKILL this process when <point> is reached for the n-th time
+// VerifTrace(event, args...): append one line to the file named by VERIF_TRACE.
+
+var (
+	verifMu     sync.Mutex
+	verifCounts = map[string]int{}
+	verifTraceF *os.File
+	verifLogF   *os.File
+)
+
+func VerifCrash(point string) {
+	spec := os.Getenv("VERIF_CRASH")
+	logf := os.Getenv("VERIF_CRASH_LOG")
+	if spec == "" && logf == "" {
+		return
+	}
+	verifMu.Lock()
+	defer verifMu.Unlock()
+	verifCounts[point]++
+	n := verifCounts[point]
+	if logf != "" {
+		if verifLogF == nil {
+			verifLogF, _ = os.OpenFile(logf, os.O_APPEND|os.O_CREATE|os.O_WRONLY, 0644)
+		}
+		if verifLogF != nil {
+			fmt.Fprintf(verifLogF, "%s\n", point)
+		}
+	}
+	if spec != "" {
+		i := strings.LastIndex(spec, ":")
+		if i > 0 && spec[:i] == point {
+			if want, err := strconv.Atoi(spec[i+1:]); err == nil && want == n {
+				syscall.Kill(os.Getpid(), syscall.SIGKILL)
+				select {}
+			}
+		}
+	}
+}
+
+func VerifTrace(event string, args ...interface{}) {
+	path := os.Getenv("VERIF_TRACE")
+	if path == "" {
+		return
+	}
+	verifMu.Lock()
+	defer verifMu.Unlock()
+	if verifTraceF == nil {
+		verifTraceF, _ = os.OpenFile(path, os.O_APPEND|os.O_CREATE|os.O_WRONLY, 0644)
+	}
+	if verifTraceF != nil {
+		fmt.Fprintf(verifTraceF, "%s %s\n", event, strings.TrimSpace(fmt.Sprintln(args...)))
+	}
+}
